@@ -149,6 +149,7 @@ PROPS = {
     ),
     "C18": dict(
         verus=[("timers", {})],
+        kani=["timers_shared"],
         technique="Verus single-step contracts on the extracted real TimerGuard / Stopwatch / Timer / MaybeGuardedDuration operations from an arbitrary state + inductive lemma over operation histories",
         level_text="Deductive proof (Verus/z3) that, from ANY state of a stopwatch in its exclusive representation, dropping a guard adds exactly the span the clock reported at its first stop (stop is idempotent), "
                    "discard adds nothing, overwrite clears the total before the span is added, clear empties it, close reports the accumulated total or nothing; that a timer's first stop fixes creation-to-now and later stops change nothing; "
